@@ -314,6 +314,28 @@ def run(rep: C.Report, tier: str) -> int:
             except Exception as e:
                 rep.violation("C01/exception", f"{kind} under parallel tempering: {e!r}", {"case": SC.describe(cfg)}, True)
 
+    # on-line tuning of widths / step size (Model/Adaptation.v): bookkeeping and outcome exactly,
+    # applied factors by interval goals
+    from lib import adaptation
+    try:
+        a3 = C.coq_audit(PROP + "_adapt", ["Adapt_factor_range", "Adapt_width_positive", "Adapt_direction",
+                                           "Adapt_check_interval", "Adapt_band_is_two_sigma"], "IT.Properties.Adaptation")
+        rep.obligation(True, 5)
+        rep.coverage["adaptation_audit"] = a3
+    except C.ProofFailure as e:
+        rep.obligation(False, 5)
+        rep.violation("C01/proof", f"proof obligation no longer checks: {e.what}",
+                      {"theorem_or_correspondence": e.what, "log": e.log[-1000:]}, False)
+    adaptation.run(rep, PROP, C.rng_for(PROP, "adaptation"), tier)
+    try:      # supplementary theorems (reflected oblique proposals are irreversible (known finding D4))
+        _a = C.coq_audit("C01_oblique", ['C01_reflect_preimage', 'C01_reflect_preimage_conv', 'C01_pca_oblique_irreversible', 'C01_ensemble_oblique_irreversible', 'C01_ensemble_no_return', 'C01_axis_fold_reversible', 'C01_axis_fold_reversible_vec'], "IT.Properties.C01Oblique")
+        rep.obligation(True, 7)
+        rep.coverage["oblique_audit"] = _a
+    except C.ProofFailure as _e:
+        rep.obligation(False, 7)
+        rep.violation("C01/proof", f"proof obligation no longer checks: {_e.what}",
+                      {"theorem_or_correspondence": _e.what, "log": _e.log[-1000:]}, False)
+
     codes, broken = S.run_code_cases(PROP, "trace", terms)
     for b in broken:
         rep.obligation(False)
